@@ -4,7 +4,7 @@ PROP = {
         "level": "exploration",
         "level_text": "Seeded exploration of the real emit_file worker (Worker::on_batch through the cfg(emit_rs_emit_verif) hook) over an in-memory filesystem that logs every call: 200 000 (quick) / 16 000 000 (thorough) generated cases = configuration (roll by day/hour/minute, max_files 1-6/32/1000, size limits from 1 B, reuse on/off, prefixes and extensions that extend or are extended by a sibling set's, prefixes with dots, six directory spellings) x pre-existing directory contents (foreign files, sibling sets with well-formed names, look-alikes, older / future / other-granularity members) x clock trajectory (zero advance, sub-millisecond, jumps onto and over period boundaries, backward steps, leap day / year end; in three quarters of the cases the injected clock additionally ADVANCES ON EVERY READING by a step between 1 ns and 7.3 s and batches are placed within two steps before a period or millisecond boundary, the monitor counts the reads per on_batch and judges names against every reading taken during that batch) x batch history with clean restarts, injected failures and file-id collisions. A reference oracle written from the property statement (civil-from-days period, exact name grammar, size arithmetic on the observed file lengths, smallest-name-first retention, membership of every path touched) is evaluated after every on_batch attempt. Held-on-what-was-observed, not a proof over all configurations.",
         "level_note": "Trusts the in-memory filesystem and the reference oracle in harness/monx/src/bin/c11.rs + shared/fakefs.rs. The end-to-end lane additionally runs the whole pipeline with a stalled filesystem to cover the channel's overflow truncation; the strace lane checks on the real filesystem that nothing outside the set is opened for writing or unlinked with a sibling set in the same directory.",
-        "technique": "runtime monitoring: naming / roll / retention / membership reference oracle over the op log and state of an in-memory filesystem under the real worker; end-to-end lane; strace lane",
+        "technique": "runtime monitoring: naming / roll / retention / membership reference oracle over the op log and state of an in-memory filesystem under the real worker; end-to-end lane; strace lane; valgrind memcheck run of the same monitor (thorough)",
         "assumptions": [
             "a member is a name with the exact grammar prefix.YYYY-MM-DD[-HH[-MM]].8 digits.8 hex.ext; names that match a looser reading (digits-and-dashes that are not a date shape) are not generated and left unconstrained",
             "the retention bound is not required while a directory listing or a deletion failed (injected) until the next file creation; the roll rule is only evaluated between two successful batches with no restart or failed attempt in between",
@@ -16,6 +16,7 @@ PROP = {
         "lanes": [
             native("c11", pkg="monx", scale={"quick": 100, "thorough": 400}),
             native("c09x", pkg="monx", name="e2e-overflow", args={"prop": "C11"}),
+            memcheck("c11", scale=1, timeout={"thorough": 3600}),
             {"name": "strace", "kind": "script", "script": "c10-strace", "tiers": QT, "args": {"prop": "C11"}},
         ],
     }
